@@ -161,4 +161,29 @@ def readResponseHeader (c : Ctx) (wire : Bytes) : Res (Ctx × Bytes) :=
   | .err e => .err e
   | .panic p => .panic p
 
+/-! ### The op id counter under concurrency
+
+`getNextOpID` is `atomic.AddUint64(&nextOpID, 1)`: an atomic fetch-and-add. However many goroutines
+call it at the same time, the calls take effect one after the other (linearizability of the atomic
+— trusted, and tied on every run by the `c9ids` correspondence op), so `n` calls starting from
+counter value `ctr` return `ctr+1 … ctr+n`, each value exactly once, in some order. -/
+
+/-- The op ids handed out by `n` calls of `getNextOpID` when the counter is at `ctr`. -/
+def issuedIds (ctr n : Nat) : List Bytes := (List.range n).map (fun i => natDigits (ctr + 1 + i))
+
+/-- A whole call in the model, used by the transport-level correspondence (`c9e2e`): caller context →
+request header bytes → `ReadRequestHeader` → handler adds `R` → response header bytes →
+`ReadResponseHeader` into the caller's context. Returns the handler's context (before `R`) and the
+caller's context after the call. -/
+def callThrough (cid : Bytes) (opid : Nat) (U : Hdrs) (ns : Int) (ctr : Nat) (R : Hdrs) : Res (Ctx × Ctx) :=
+  let c := clientCtx cid opid U ns []
+  match readRequestHeader (marshal c.req) ctr with
+  | .ok (s, _) =>
+    match readResponseHeader c (marshal (s.addResponseHeaders R).resp) with
+    | .ok (cc, _) => .ok (s, cc)
+    | .err e => .err e
+    | .panic p => .panic p
+  | .err e => .err e
+  | .panic p => .panic p
+
 end FV
